@@ -36,7 +36,8 @@ def inputs(draw):
         n = draw(st.integers(0, 4))
         kind = draw(st.sampled_from(["leaf", "obj"]))
         if kind == "leaf":
-            doc["items"] = draw(st.lists(st.sampled_from([0, 1, 2, 3, "a", "b", True, None]), min_size=n, max_size=n, unique_by=lambda v: json.dumps(v)))
+            # (the last two are ordinary strings that happen to look like the engine's former in-band slot markers)
+            doc["items"] = draw(st.lists(st.sampled_from([0, 1, 2, 3, "a", "b", True, None, "__CAUGHT__", "__TERMINATED__"]), min_size=n, max_size=n, unique_by=lambda v: json.dumps(v)))
         else:
             ks = draw(st.lists(st.integers(0, 9), min_size=n, max_size=n, unique=True))
             doc["items"] = [{"k": k, "v": draw(leaves())} for k in ks]
